@@ -301,12 +301,26 @@ func successBlocks(call ssa.Value) []*ssa.BasicBlock {
 		_, isNil := nilTests(ev)
 		for _, b := range isNil {
 			sb := b.Block()
-			if len(sb.Preds) == 1 {
+			if edgeExclusive(sb, b.If.Block()) {
 				out = append(out, sb)
 			}
 		}
 	}
 	return out
+}
+
+// edgeExclusive: block sb is entered from outside only through its edge from block from
+// (its other predecessors, if any, are back edges: blocks sb itself dominates).
+func edgeExclusive(sb, from *ssa.BasicBlock) bool {
+	for _, p := range sb.Preds {
+		if p == from {
+			continue
+		}
+		if !sb.Dominates(p) {
+			return false
+		}
+	}
+	return true
 }
 
 // failureBlocks: the blocks entered when the error result of call is non-nil.
